@@ -137,6 +137,16 @@ HAND_SOURCES = [
 ]
 
 
+WITNESS_JOBS = [
+    ({"rules": ["remove_spaces", "remove_method_call"]}, "obj -- c\n:m(M1)\nM2()\n"),
+    ({"rules": ["remove_empty_do"]}, "--[==[\n]==]do\nend--[=[\n]=] local x = M1\nM2()\n"),
+    ({"rules": ["remove_unused_variable"]}, "local b\n,\na\n= g() and 1\nM1(a)\n"),
+    ({"rules": ["remove_method_definition"]}, "function M1:name(a\n,b\n)\nend\nM2()\n"),
+    ({"rules": ["remove_unused_if_branch"]}, "if a then\n f(1)\nelseif true then\n M1()\nelse\n M2()\nend\nM3()\n"),
+    ({"rules": [{"rule": "append_text_comment", "text": "x", "location": "end"}]}, "local a = M1;\n"),
+]
+
+
 def configs(rng, n_default, n_neutral):
     out = []
     out.append(("default-all", {"rules": list(DEFAULT_RULES)}))
@@ -164,11 +174,11 @@ def run(ctx):
     quick = ctx.tier == "quick"
 
     sources = list(HAND_SOURCES)
-    for i in range(16 if quick else 150):
+    for i in range(16 if quick else 40):
         s = marker_program(rng, i)
         if len(s.encode("utf-8")) < 3000:
             sources.append(s)
-    cfgs = configs(rng, 10 if quick else 60, 14 if quick else 80)
+    cfgs = configs(rng, 10 if quick else 20, 14 if quick else 30)
 
     jobs = []   # (kind, config dict, source, shift_text or None)
     for si, s in enumerate(sources):
@@ -182,6 +192,8 @@ def run(ctx):
             jobs.append(("append-start", {"rules": [{"rule": "append_text_comment", "text": t}]}, s, t))
             jobs.append(("append-start+default", {"rules": list(DEFAULT_RULES) + [{"rule": "append_text_comment", "text": t}]}, s, t))
             jobs.append(("append-end", {"rules": [{"rule": "append_text_comment", "text": t, "location": "end"}]}, s, None))
+    for c, s in WITNESS_JOBS:
+        jobs.append(("witness", c, s, None))
     rows = [{"id": i, "config": json.dumps(j[1]), "src": j[2], "trace": True} for i, j in enumerate(jobs)]
     res = _run(rows, crate="dl-c04")
 
@@ -233,7 +245,7 @@ def run(ctx):
             cases.append((i, coq_case(s, out, r["trace"])))
 
     # model = code on the recorded requests, lines_fit and placements evaluated in Coq
-    badc = C.run_coq_cases(ctx.prop, PREAMBLE, cases, chunk=max(4, len(cases) // (C.NPROC * 3) + 1))
+    badc = C.run_coq_cases(ctx.prop, PREAMBLE, cases, chunk=min(24, max(4, len(cases) // (C.NPROC * 3) + 1)))
     model_bad, unfit = [], []
     for cid, d in badc:
         kind, c, s, _ = jobs[cid]
@@ -378,9 +390,34 @@ def classify_problem(c, s, out):
             return c18.KEY_DOTNUM
     if "remove_unused_if_branch" in names and has_constant_elseif(s):
         return KEY_ELSEIF_TRUE
+    culprit = culprit_rule(c, s)
+    if culprit in KNOWN_CULPRITS:
+        return "line-shift:" + culprit
     if "remove_method_definition" in names and method_with_multiline_parameters(s) and not (
             "remove_spaces" in names and names.index("remove_spaces") < names.index("remove_method_definition")):
         return KEY_METHOD_SELF
+    return None
+
+
+# rules for which a line-shifting defect is recorded in known_findings.txt (key line-shift:<rule>)
+KNOWN_CULPRITS = {"remove_method_call", "remove_empty_do", "remove_unused_variable"}
+
+
+def culprit_rule(c, s):
+    """the first rule of the pipeline that alone (after remove_spaces when the pipeline starts with it)
+    moves a marker of this source; None when no single rule does"""
+    rules = c.get("rules", DEFAULT_RULES)
+    first_spaces = bool(rules) and rules[0] == "remove_spaces"
+    seen = []
+    for r in rules:
+        name = r if isinstance(r, str) else r.get("rule")
+        if name in seen or name in ("remove_spaces", "append_text_comment"):
+            continue
+        seen.append(name)
+        single = {"rules": (["remove_spaces"] if first_spaces else []) + [r]}
+        rr = _run([{"id": 0, "config": json.dumps(single), "src": s}], crate="dl-c04")[0]
+        if rr["ok"] and first_bad_marker(single, s, rr["out"]) is not None:
+            return name
     return None
 
 
